@@ -121,8 +121,17 @@ def build():
         raise TieBroken("WRAPPER_OPERANDS: expected a dict literal of small ints")
     out.append("(* core/analyzer.py WRAPPER_OPERANDS *)\nDefinition WRAPPER_OPERANDS : list (str * nat) :=\n  ["
                + "; ".join("(" + coq_str(k.value) + ", " + str(v.value) + "%nat)" for k, v in sorted(zip(wo.keys, wo.values), key=lambda kv: kv[0].value)) + "].\n")
-    cd = in_tuples(func(an, "_extract_cd_target"), "cd")
-    out.append(coq_strs("CD_DYNAMIC_PARTS", pick(cd, ["cmdsub", "param"], "cd dynamic parts"), "_extract_cd_target: part kinds that make the target non-literal"))
+    rw = module_assign(an, "_REWRITTEN_CHARS")
+    if not (isinstance(rw, ast.Call) and getattr(rw.func, "id", None) == "frozenset" and len(rw.args) == 1 and not rw.keywords
+            and isinstance(rw.args[0], ast.Constant) and isinstance(rw.args[0].value, str) and rw.args[0].value):
+        raise TieBroken("_REWRITTEN_CHARS: expected frozenset(<string literal>)")
+    out.append("(* core/analyzer.py _REWRITTEN_CHARS: characters of a word that bash (or the tool) still rewrites *)\n"
+               f"Definition REWRITTEN_CHARS : str := {coq_str(''.join(sorted(set(rw.args[0].value))))}.\n")
+    # _match_written_file and _extract_cd_target test a word with _REWRITTEN_CHARS.intersection(<word>) and nothing else
+    for fname in ("_match_written_file", "_extract_cd_target"):
+        uses = [c for c in ast.walk(func(an, fname)) if isinstance(c, ast.Name) and c.id == "_REWRITTEN_CHARS"]
+        if len(uses) != 1:
+            raise TieBroken(f"{fname}: expected exactly one use of _REWRITTEN_CHARS")
     ex = in_tuples(func(an, "_analyze_expansion"), "expansion")
     out.append(coq_strs("SUBST_KINDS", pick(ex, ["cmdsub", "procsub"], "substitution kinds"), "_analyze_expansion: substitution node kinds"))
 
